@@ -42,7 +42,10 @@ func (e *Exec) atCalls(fr *Frame, cfr *Frame, st *State, cc *ssa.CallCommon, pos
 		name = cc.Method.Name()
 	} else if f := cc.StaticCallee(); f != nil {
 		name = f.Name()
-	} else if _, isB := cc.Value.(*ssa.Builtin); !isB {
+	} else if b, isB := cc.Value.(*ssa.Builtin); isB {
+		// builtins (delete, close, append, copy ...) can be named in atcall clauses too
+		name = b.Name()
+	} else {
 		// call through a function value: named after the contract on its function type, if any
 		if fc := e.w.Contract[funcTypeKey(cc.Signature())]; fc != nil {
 			name = fc.Key
